@@ -122,6 +122,9 @@ func (b *builder) genConfigs() {
 		}
 		if r.Bool(p.UpdateOpt) {
 			c.Update = bp(r.Bool(0.5))
+			if r.Bool(0.25) {
+				c.Update2 = bp(r.Bool(0.5)) // a base option list plus an override
+			}
 		}
 		if r.Bool(p.JSONOpt) {
 			c.JSON = &scen.JSONOpts{Width: []int{0, 20, 80}[r.Intn(3)], Indent: []string{" ", "  ", "\t", ""}[r.Intn(4)], SortKeys: r.Bool(0.5)}
@@ -163,7 +166,7 @@ func (b *builder) genMatchers(api string, in scen.Value) []scen.MatcherSpec {
 			if yamlAPI {
 				m.TypeName = []string{"string", "bool"}[r.Intn(2)]
 			} else {
-				m.TypeName = []string{"string", "float64", "bool", "map", "slice"}[r.Intn(5)]
+				m.TypeName = []string{"string", "float64", "bool", "map", "slice", "strslice", "strmap"}[r.Intn(7)]
 			}
 		case 2:
 			m.Kind = "custom"
@@ -225,7 +228,8 @@ func (b *builder) fillValues(c *scen.Call) {
 	}
 }
 
-var subNames = []string{"sub", "s1", "case_a", "b", "sub10", "sub2", "nest", "A", "1", "Sub", "sub.1", "sub-2", "v9a", "v10", "7", "07", "50%_off", "x/y", "[x]", "sub#01", "ünï", "a=b"}
+var subNames = []string{"sub", "s1", "case_a", "b", "sub10", "sub2", "nest", "A", "1", "Sub", "sub.1", "sub-2", "v9a", "v10", "7", "07", "50%_off", "x/y", "[x]", "sub#01", "ünï", "a=b",
+	"scenario_" + strings.Repeat("long_", 23)} // (124 bytes: what follows it in a test name lies beyond any 120-byte cut)
 
 func (b *builder) genNode(name, full string, site, depth int) *scen.TestNode {
 	r, p := b.r, b.p
@@ -250,7 +254,9 @@ func (b *builder) genNode(name, full string, site, depth int) *scen.TestNode {
 	for i := 0; i < total; i++ {
 		if subAt[i] {
 			sn := subNames[r.Intn(len(subNames))]
-			for used[sn] {
+			// (the long name at most once per path: a standalone file is called after the whole
+			// test name and file names end at 255 bytes)
+			for used[sn] || (len(sn) > 100 && len(full) > 60) {
 				sn = subNames[r.Intn(len(subNames))]
 			}
 			used[sn] = true
